@@ -22,8 +22,9 @@ UNIVERSE = ['Al', 'Cu', 'Fe', 'Ni']          # enumerated exhaustively
 BIG = ['Al', 'Cu', 'Fe', 'Ni', 'Ag', 'Au']   # structured 5- and 6-element models
 CUSTOM = ['Xx', 'A', 'B', 'Zq']
 BUILTIN = {'Al': (13, 26.981538), 'Cu': (29, 63.546), 'Fe': (26, 55.845), 'Ni': (28, 58.6934), 'Ag': (47, 107.8682), 'Au': (79, 196.96655)}
-OVERRIDE = {'Al': {'atomic_mass': 25.5}, 'Cu': {'lattice_constant': 3.61}, 'Fe': {'lattice_type': 'bcc', 'atomic_number': 99},
-            'Ni': {'atomic_mass': 60.25, 'lattice_constant': 3.52, 'lattice_type': 'hcp'}}
+# (values with more digits than %f prints and values in scientific notation: the element line must not lose them)
+OVERRIDE = {'Al': {'atomic_mass': 26.9815385123}, 'Cu': {'lattice_constant': 3.6149671234}, 'Fe': {'lattice_type': 'bcc', 'atomic_number': 99},
+            'Ni': {'atomic_mass': 4.48e-26, 'lattice_constant': 3.52e-1, 'lattice_type': 'hcp'}}
 CUSTOM_DATA = {'Xx': {'atomic_number': 119, 'atomic_mass': 300.5}, 'A': {'atomic_number': 1, 'atomic_mass': 1.25, 'lattice_constant': 2.5},
                'B': {'atomic_number': 2, 'atomic_mass': 4.5, 'lattice_type': 'bcc'},
                'Zq': {'atomic_number': 7, 'atomic_mass': 14.0, 'lattice_constant': 4.25, 'lattice_type': 'sc'}}
@@ -164,6 +165,20 @@ def eam_ini(m, target, sep=' : '):
 
 
 # -------------------------------------------------------------------------------------- API objects
+def big_grid_models(fs):
+    """tables of several MiB / more than 2**14 rows per function (the documentation's own examples use nrho = 50000)"""
+    out = []
+    for els, nr, nrho in ((['Al', 'Cu'], 20001, 50000), (['Cu', 'Al', 'Ni'], 16385, 16384), (BIG[:5], 10000, 10000)):
+        up = unordered_pairs(els)
+        if fs:
+            dens = ['%s->%s' % (a, b) for a in els for b in els][::2]
+        else:
+            dens = list(els)
+        out.append(dict(fs=fs, embed=list(els), dens=dens, pairs=[list(p) for p in orient(up[::2], 2)], species='builtin',
+                        nr=nr, cutoff=6.5, nrho=nrho, cutoff_rho=100.0))
+    return out
+
+
 def api_objects(m, order=None):
     """(pair potentials, EAMPotential list in `order` (default: model_elements order), dipoles, quadrupoles).
     In the Python API the user states everything explicitly: undeclared functions are explicit zero() callables."""
@@ -178,6 +193,9 @@ def api_objects(m, order=None):
             dens = {}
             for b in els:
                 dens[b] = R.api_defn(dens_fs_defn(el, b)) if ('%s->%s' % (el, b)) in m['dens'] else pf.zero()
+            for b in m.get('extra_dict_species', []):
+                # EAMPotential objects re-used from a larger system: their dictionaries hold more species than are tabulated
+                dens[b] = R.api_defn(dens_fs_defn(el, b))
         else:
             dens = R.api_defn(dens_defn(el)) if el in m['dens'] else pf.zero()
         eam.append(ap.EAMPotential(el, Z, mass, emb, dens, a, lat))
